@@ -56,5 +56,19 @@ CHECKS = {
         design_ref="DESIGN.md section 3, C11",
         note=NOTE_L1,
     ),
+    "C04": dict(
+        engine="lattice",
+        technique="bounded exhaustive enumeration of backend x flavor x source system x conversion call (40 to_* targets x imputation keywords, to_VectorND / to_ND / like x keyword spellings) x operand; conversion model (M_conv) plus exact bit-for-bit pass-through oracles",
+        text="For all 20 source systems, 40 to_* targets with every choice of imputed-coordinate keyword (scalar and array-valued), and the dimension-changing calls with every keyword spelling, on 60-digit and float64 objects, NumPy and Awkward arrays in both flavors: result system and flavor, unchanged stored coordinates when the system does not change, retained stored coordinates of projections/embeddings bit for bit, imputed values exactly the keyword or zero in the right coordinate type, geometric value against the exact conversion, round trip, and agreement of array backends with the object backend.",
+        design_ref="DESIGN.md section 3, C04",
+        note=NOTE_L1,
+    ),
+    "C05": dict(
+        engine="lattice",
+        technique="exhaustive enumeration of the finite type lattice: method x dimension pairing x coordinate-system signature x flavor per operand x backend per operand, plus operator forms; type model (M_type) and a differential coordinate-system table evaluated at every point",
+        text="Every catalogued method is called for every dimension pairing (allowed pairings must work with no 'has no signature' error, the others must raise TypeError and work after like()), every flavor combination and all 16 backend pairings (all signatures on object x object, diagonal+cross elsewhere in quick; all in thorough); backend, flavor and dimension of the result are compared with the stated rules and the coordinate system must be the same function of the operand systems on every backend / flavor. Operators are compared with their methods on every backend pairing.",
+        design_ref="DESIGN.md section 3, C05",
+        note="trusted base: the catalogue (mc/catalogue.py) and M_type; two fixed generic values per operand (types do not depend on values)",
+    ),
 }
 NOT_YET = {}
